@@ -6,6 +6,7 @@ import (
 	"fmt"
 	"io"
 	"math/rand"
+	"crypto/tls"
 	"net"
 	"net/http"
 	"strconv"
@@ -511,6 +512,78 @@ func c18hookfail(iv int) string {
 	return fmt.Sprintf("resumeerr=%v orphanpings=%d", e1 != nil, orphan)
 }
 
+// c18lives: ONE client (made by NewClient alone) lives several sessions: Connect, a few keepalive periods, Disconnect,
+// Connect again ... Every session is a STARTTLS session against a scripted server that counts the white space it
+// receives inside TLS. "While a session is up the client writes a whitespace keepalive at the configured interval" -
+// in every session of the client, not only in its first one.
+func c18lives(intervalMs, lives int) string {
+	ln, err := net.Listen("tcp", "127.0.0.1:0")
+	if err != nil {
+		return "listen-failed"
+	}
+	defer ln.Close()
+	cfg := &xmpp.Config{
+		TransportConfiguration: xmpp.TransportConfiguration{Address: ln.Addr().String(), Domain: "localhost", TLSConfig: &tls.Config{RootCAs: getPKI().pool}},
+		Jid:                    "test@localhost/res", Credential: xmpp.Password("secret"), ConnectTimeout: 2,
+		KeepaliveInterval: time.Duration(intervalMs) * time.Millisecond,
+	}
+	client, err := xmpp.NewClient(cfg, xmpp.NewRouter(), func(error) {})
+	if err != nil {
+		return "newclient-failed"
+	}
+	out := fmt.Sprintf("lives=%d", lives)
+	for l := 1; l <= lives; l++ {
+		sv := &negServer{m: happy(true, false, false)}
+		srvDone := make(chan struct{})
+		go func() {
+			defer close(srvDone)
+			c, err := ln.Accept()
+			if err != nil {
+				return
+			}
+			sv.serve(c)
+		}()
+		cerr := make(chan error, 1)
+		go func() {
+			defer func() {
+				if r := recover(); r != nil {
+					cerr <- fmt.Errorf("panic: %v", r)
+				}
+			}()
+			cerr <- client.Connect()
+		}()
+		select {
+		case e := <-cerr:
+			if e != nil {
+				return out + fmt.Sprintf(" connect%d=failed", l)
+			}
+			_ = e
+		case <-time.After(10 * time.Second):
+			return out + fmt.Sprintf(" connect%d=hang", l)
+		}
+		t0 := time.Now()
+		time.Sleep(time.Duration(6*intervalMs) * time.Millisecond)
+		dd := make(chan struct{})
+		go func() { defer close(dd); defer func() { recover() }(); client.Disconnect() }()
+		select {
+		case <-dd:
+		case <-time.After(5 * time.Second):
+			return out + fmt.Sprintf(" disconnect%d=hang", l)
+		}
+		select {
+		case <-srvDone:
+		case <-time.After(3 * time.Second):
+		}
+		// the server's XML decoder hands the white space over when the next markup - the closing tag - arrives
+		sv.mu.Lock()
+		p := sv.pings
+		sv.mu.Unlock()
+		out += fmt.Sprintf(" p%d=%d t%d=%d", l, p, l, time.Since(t0).Milliseconds())
+		time.Sleep(10 * time.Millisecond)
+	}
+	return out
+}
+
 func (c18) Exec(c Case) []string {
 	obs := make([]string, len(c.Ops))
 	var wg sync.WaitGroup
@@ -542,6 +615,16 @@ func (c18) Exec(c Case) []string {
 			go func(i int) {
 				defer wg.Done()
 				obs[i] = tlsKeepalive(iv, tk)
+			}(i)
+			continue
+		}
+		if op[0] == "lives" && len(op) == 3 {
+			iv, _ := strconv.Atoi(op[1])
+			nl, _ := strconv.Atoi(op[2])
+			wg.Add(1)
+			go func(i int) {
+				defer wg.Done()
+				obs[i] = c18lives(iv, nl)
 			}(i)
 			continue
 		}
@@ -633,6 +716,9 @@ func (c18) Generate(rng *rand.Rand, tier string, st *Stats) []Case {
 			ops = append(ops, []string{"xclose", strconv.Itoa(iv), strconv.Itoa([]int{0, iv / 2, iv, 3*iv + 1}[j])})
 			st.Inc("server_closes_stream_real_transport")
 		}
+		// several sessions of one client, each with its keepalives (once per batch)
+		ops = append(ops, []string{"lives", strconv.Itoa([]int{15, 25, 40}[b%3]), strconv.Itoa(2 + b%2)})
+		st.Inc("sessions_of_one_client")
 		// a Resume whose post-resume hook fails leaves no keepalive behind
 		ops = append(ops, []string{"hookfail", strconv.Itoa([]int{4, 7, 12}[b%3])})
 		st.Inc("resume_hook_fails")
